@@ -668,6 +668,7 @@ fn c06_cell_cl_absent_te_chunkedx() {
 
 //@ like: c06_cell_cl_absent_te_absent
 //@ tier: quick
+//@ props: C06 C08
 #[kani::proof]
 fn c06_cell_cl_0_te_absent() {
     c06_case(Some("0"), None);
@@ -717,6 +718,7 @@ fn c06_cell_cl_0_te_chunkedx() {
 
 //@ like: c06_cell_cl_absent_te_absent
 //@ tier: quick
+//@ props: C06 C08
 #[kani::proof]
 fn c06_cell_cl_7_te_absent() {
     c06_case(Some("7"), None);
@@ -766,6 +768,7 @@ fn c06_cell_cl_7_te_chunkedx() {
 
 //@ like: c06_cell_cl_absent_te_absent
 //@ tier: quick
+//@ props: C06 C08
 #[kani::proof]
 fn c06_cell_cl_max_te_absent() {
     c06_case(Some("18446744073709551615"), None);
